@@ -30,13 +30,25 @@ def rec(t, ver, body):
 
 # ----------------------------------------------------------------------------- frames
 def eth_frame(from_server, seq, ack, data, flags=0x18):
-    """Ethernet II / IPv4 / TCP frame (no options; checksums left 0: `-c` is not used)."""
+    """Ethernet II / IPv4 / TCP frame (no options; valid IPv4 and TCP checksums)."""
     src, dst = (SIP, CIP) if from_server else (CIP, SIP)
     sp, dp = (SPORT, CPORT) if from_server else (CPORT, SPORT)
     smac, dmac = (SMAC, CMAC) if from_server else (CMAC, SMAC)
     tcp = struct.pack(">HHIIBBHHH", sp, dp, seq & 0xFFFFFFFF, ack & 0xFFFFFFFF, 5 << 4, flags, 8192, 0, 0) + data
+    tcp = tcp[:16] + struct.pack(">H", _csum(src + dst + struct.pack(">BBH", 0, 6, len(tcp)) + tcp)) + tcp[18:]
     ip = struct.pack(">BBHHHBBH4s4s", 0x45, 0, 20 + len(tcp), 1, 0, 64, 6, 0, src, dst)
+    ip = ip[:10] + struct.pack(">H", _csum(ip)) + ip[12:]
     return dmac + smac + b"\x08\x00" + ip + tcp
+
+
+def _csum(b):
+    """RFC 1071 checksum (valid checksums, so that the captures can also be exported with -c)"""
+    if len(b) % 2:
+        b += b"\0"
+    s = sum(struct.unpack(">%dH" % (len(b) // 2), b))
+    while s >> 16:
+        s = (s & 0xFFFF) + (s >> 16)
+    return ~s & 0xFFFF
 
 
 # ----------------------------------------------------------------------------- cases
